@@ -65,6 +65,9 @@ def main():
         h = hashlib.sha256(wt.encode()).hexdigest()
         for d in ("harness_" + h[:10], "evidence_" + h[:6], "replays_" + h[:6]):
             shutil.rmtree(os.path.join(VERIF, "work", d), ignore_errors=True)
+        import glob
+        for d in glob.glob(os.path.join(VERIF, "work", "*_" + h[:6])):
+            shutil.rmtree(d, ignore_errors=True)
     return 0
 
 
